@@ -4,9 +4,11 @@ package verifstack
 
 import (
 	"errors"
+	"time"
 
 	"github.com/glebziz/fs_db"
 	"github.com/glebziz/fs_db/internal/di"
+	"github.com/glebziz/fs_db/internal/utils/wpool"
 	nd "github.com/glebziz/fs_db/internal/verifnd"
 	"github.com/glebziz/fs_db/pkg/inline"
 	inlinedb "github.com/glebziz/fs_db/pkg/inline/db"
@@ -46,4 +48,22 @@ func VerifH20c() {
 		nd.Assert(d.Set(ctx, "a", []byte("x")) == nil, "H20c.usable")
 	}
 	nd.Reach("H20c.end")
+}
+
+// VerifH16e: the worker pool is built from the configured options. Through the real
+// dependency-injection container: the pool's worker count and its send duration (the time Send
+// waits for a free slot before it defers the job) are the configured values, raised to the pool's
+// minima - a Send that waits a thousand times longer is not "prompt".
+func VerifH16e() {
+	cfg := stdConfig()
+	// concrete candidates (a symbolic duration multiplied by a unit constant ran into a
+	// disagreement between the solver's model and the engine's evaluator: DESIGN 0.5)
+	nw := []int{1, 4, 16}[nd.Choice("workers", 3)]
+	sd := []time.Duration{time.Millisecond, 250 * time.Millisecond, 2 * time.Second}[nd.Choice("send-duration", 3)]
+	cfg.WPool.NumWorkers = nw
+	cfg.WPool.SendDuration = sd
+	o := wpool.VerifOptions(di.New(cfg).Pool())
+	nd.Assert(o.NumWorkers == nw, "H16e.workers-as-configured")
+	nd.Assert(o.SendDuration == sd, "H16e.send-duration-as-configured")
+	nd.Reach("H16e.end")
 }
